@@ -895,7 +895,10 @@ class Controller:
 
             return handler_notifyPostMortem
 
-        self.statusDatabase.monitorComponent(component)
+        if self.statusDatabase is not None:
+            # VV: cleanUp() may be called before the first initialise() (e.g. a signal arrives while elaunch.py is
+            # still setting up): there is no status database yet but the components must be shutdown all the same
+            self.statusDatabase.monitorComponent(component)
 
         # VV: Mark the component as SHUTDOWN and then trigger the engine and component state
         #     shutdown sequence which will eventually trigger self.finishedCheck()
